@@ -23,7 +23,7 @@ package hmac
 //@ spec func mac_of(s *HMACStrategy, key []byte, data []byte) []byte = hmacsum(hasher_of(s), padcopy(key, 32), bcat(nobytes(), data), nilbytes())
 //@ spec func validates(s *HMACStrategy, key []byte, token string) bool = len(key) >= 32 && cut_ok(token, ".") && cut_before(token, ".") != "" && cut_after(token, ".") != "" && b64dec_ok(b64, cut_after(token, ".")) && b64dec_ok(b64, cut_before(token, ".")) && str(mac_of(s, key, b64dec(b64, cut_before(token, ".")))) == str(b64dec(b64, cut_after(token, ".")))
 //@ spec func opaque authentic(s *HMACStrategy, token string) bool = exists key []byte :: ((len(gsecret(s.Config)) > 0 && key == gsecret(s.Config)) || (exists k int :: 0 <= k && k < len(rsecrets(s.Config)) && key == rsecrets(s.Config)[k])) && validates(s, key, token)
-//@ spec func hmacstr(s *HMACStrategy, text string) string
+//@ spec func opaque hmacstr(s *HMACStrategy, text string) string = base64.RawURLEncoding.EncodeToString(mac_of(s, gsecret(s.Config), bytes(text)))
 
 //@ func (*HMACStrategy).generateHMAC
 //@   requires c != nil && key != nil
@@ -61,9 +61,12 @@ package hmac
 //@   ensures [C19.locks-released] held == old(held)
 //@   ensures [C19.one-critical-section-per-table] forall m V :: acq[m] >= old(acq[m]) && acq[m] <= old(acq[m]) + ((m == addr(c.Mutex)) ? 1 : 0)
 
+// GenerateHMACForString: the unpadded base64url text of the MAC of the text under the first 32 bytes of the global secret, which
+// must be at least 32 bytes long. Assumed only: that this text is not empty (base64 and the MAC length are uninterpreted).
 //@ func (*HMACStrategy).GenerateHMACForString
-//@   trusted
-//@   ensures err == nil ==> result0 == hmacstr(c, text) && result0 != ""
+//@   requires c != nil
+//@   ensures [C16.user-code-mac-is-keyed] err == nil ==> result0 == hmacstr(c, text) && len(gsecret(c.Config)) >= 32
+//@   assume err == nil ==> result0 != ""
 //@   ensures err != nil ==> result0 == ""
 
 // RandomBytes: n bytes, every one of them read from crypto/rand.Reader (io.ReadFull: a short read is an error, never zero padding).
